@@ -1,0 +1,6 @@
+//go:build !verif
+
+package decorator
+
+func (f *fileDecorator) verifFragments() {}
+func (f *fileDecorator) verifLinked()    {}
